@@ -26,6 +26,7 @@ type restServer struct {
 	cmd    *exec.Cmd
 	addr   string
 	stderr *lockedBuf
+	exited chan struct{} // closed when the process has ended (it is waited for in the background)
 }
 
 // lockedBuf keeps what matters of the server's stderr (which logs every request):
@@ -105,14 +106,30 @@ func startServer(bin string) (*restServer, error) {
 		if err := s.cmd.Start(); err != nil {
 			return nil, err
 		}
+		s.exited = make(chan struct{})
+		go func(s *restServer) { s.cmd.Wait(); close(s.exited) }(s)
 		deadline := time.Now().Add(20 * time.Second)
-		for time.Now().Before(deadline) {
+		stolen := false
+		for time.Now().Before(deadline) && !stolen {
 			c, err := net.DialTimeout("tcp", addr, 200*time.Millisecond)
 			if err == nil {
 				c.Close()
-				return s, nil
+				// the port was free when it was chosen, but between choosing and binding another process on this machine (another
+				// worker's server) may have taken it: then the dial reaches THAT server and ours has exited with a bind error.
+				// Only a server that is listening and still running a moment later is ours.
+				select {
+				case <-s.exited:
+					stolen = true
+				case <-time.After(150 * time.Millisecond):
+					return s, nil
+				}
+				continue
 			}
-			time.Sleep(50 * time.Millisecond)
+			select {
+			case <-s.exited: // ended before it ever listened (the port was taken in between): another port
+				stolen = true
+			case <-time.After(50 * time.Millisecond):
+			}
 		}
 		lastErr = fmt.Errorf("server did not start listening on %s: %s", addr, s.stderr.String())
 		s.cmd.Process.Kill()
@@ -142,7 +159,12 @@ func server() *restServer {
 }
 
 func (s *restServer) alive() bool {
-	return s.cmd.ProcessState == nil && s.cmd.Process.Signal(syscall.Signal(0)) == nil
+	select {
+	case <-s.exited:
+		return false
+	default:
+		return s.cmd.Process.Signal(syscall.Signal(0)) == nil
+	}
 }
 
 var freshSem = make(chan struct{}, 16)
